@@ -33,7 +33,7 @@ EmptyRun ==
   [id |-> 0, scenario |-> "", items |-> <<>>, cur |-> 0, pat |-> 0, started |-> {}, finished |-> {},
    handles |-> {}, dropping |-> {}, lastDump |-> EmptyDump, preRestart |-> EmptyDump, restartSeq |-> 0, restartClear |-> FALSE,
    updatedSince |-> TRUE, tick |-> [seq |-> 0, pat |-> 0, stream |-> 0, before |-> EmptyDump], lastTick |-> [seq |-> 0, rseq |-> 0, running |-> FALSE, changed |-> FALSE], wokenSeq |-> 0,
-   pendingClear |-> FALSE, cloneStream |-> 0, obsSeq |-> <<>>, gone |-> {}, updSinceDump |-> FALSE, snLoads |-> {}, snArms |-> {}, tryFails |-> {}, runEnds |-> {}, lastSite |-> <<>>, notifies |-> {}, stores |-> {}, baseStream |-> <<>>, dropsSeen |-> {}, nucleoDropping |-> FALSE, aborted |-> FALSE, quiescent |-> FALSE]
+   pendingClear |-> FALSE, cloneStream |-> 0, obsSeq |-> <<>>, gone |-> {}, updSinceDump |-> FALSE, snLoads |-> {}, snArms |-> {}, tryFails |-> {}, runEnds |-> {}, spawned |-> 0, finishedRuns |-> 0, outstandingAtDrop |-> 0, lastSite |-> <<>>, notifies |-> {}, stores |-> {}, baseStream |-> <<>>, dropsSeen |-> {}, nucleoDropping |-> FALSE, aborted |-> FALSE, quiescent |-> FALSE]
 
 SeqToSet(q) == {q[k] : k \in 1..Len(q)}
 Bad(cond, clause) == IF cond THEN {} ELSE {clause}
@@ -127,7 +127,9 @@ EndFails(run, e) ==
   IF run.aborted THEN {} ELSE
   \* a user who edits the pattern or restarts after that tick ticks again on its own account (and thereby cancels the
   \* run the tick had promised a notification for): the promise only stands while the user just waits
-  (IF run.lastTick.running /\ run.lastTick.seq > 0 /\ run.wokenSeq < run.lastTick.seq
+  \* ... and it is about a run that was allowed to finish: when the scenario's event loop gives up while a spawned run
+  \* has not even ended (a schedule that starves the pool), dropping the matcher cancels that run - nothing was lost
+  (IF run.lastTick.running /\ run.lastTick.seq > 0 /\ run.wokenSeq < run.lastTick.seq /\ run.outstandingAtDrop = 0
    THEN Bad(\E nn \in run.notifies : nn[1] > run.lastTick.seq, "lost_wakeup_tick_reported_running_but_no_notify_followed")
    ELSE {})
 
@@ -210,7 +212,7 @@ Step ==
                   nrun' = [nrun EXCEPT !.tick = [seq |-> e.seq, pat |-> e.pat, stream |-> e.stream, before |-> nrun.lastDump], !.quiescent = FALSE]
               ELSE IF e.api = "drop_injector" THEN nrun' = [nrun EXCEPT !.dropping = @ \cup {e.h}, !.obsSeq = (e.tid :> e.seq) @@ @]
               ELSE IF e.api \in {"dump", "injector"} THEN nrun' = [nrun EXCEPT !.obsSeq = (e.tid :> e.seq) @@ @]
-              ELSE IF e.api = "drop_nucleo" THEN nrun' = [nrun EXCEPT !.nucleoDropping = TRUE]
+              ELSE IF e.api = "drop_nucleo" THEN nrun' = [nrun EXCEPT !.nucleoDropping = TRUE, !.outstandingAtDrop = nrun.spawned - nrun.finishedRuns]
               ELSE IF e.api = "reparse" THEN nrun' = [nrun EXCEPT !.pat = e.pat, !.quiescent = FALSE, !.wokenSeq = e.seq]
               ELSE IF e.api = "restart" THEN
                   nrun' = [nrun EXCEPT !.preRestart = nrun.lastDump, !.quiescent = FALSE, !.pendingClear = e.clear, !.wokenSeq = e.seq,
@@ -274,7 +276,9 @@ Step ==
              /\ nstat' = [nstat EXCEPT !.events = @ + 1, !.fails = @ + Cardinality(V)]
         ELSE /\ nrun' = [nrun EXCEPT !.lastSite = [t \in DOMAIN @ \cup {e.tid} |-> IF t = e.tid THEN e.site ELSE @[t]],
                                     !.tryFails = IF e.site = "tick.try_lock_failed" THEN @ \cup {e.seq} ELSE @,
-                                    !.runEnds = IF e.site = "run.end" THEN @ \cup {e.seq} ELSE @]
+                                    !.runEnds = IF e.site = "run.end" THEN @ \cup {e.seq} ELSE @,
+                                    !.spawned = IF e.site = "tick.spawn" THEN @ + 1 ELSE @,
+                                    !.finishedRuns = IF e.site = "run.done" THEN @ + 1 ELSE @]
              /\ nstat' = [nstat EXCEPT !.events = @ + 1]
 
 Done == npos > Len(NRec) /\ PrintT(ToJson([ev |-> "DONE", stat |-> nstat])) /\ UNCHANGED nvars
